@@ -535,13 +535,17 @@ async fn remote<P: Protocol>(
         client_id = format!("{tenant_id}.{client_id}");
     }
 
-    if let Some(sender) = will_handlers.lock().unwrap().remove(&client_id) {
+    // take the previous handler out first so that the map's lock is not held while signalling
+    let previous = will_handlers.lock().unwrap().remove(&client_id);
+    if let Some(sender) = previous {
         let awaiting_will = if clean_session {
             AwaitingWill::Fire
         } else {
             AwaitingWill::Cancel
         };
-        sender.try_send(awaiting_will).unwrap();
+        // the receiver is gone if that connection's task has already returned
+        // (e.g. the router refused it): nothing to signal then
+        sender.try_send(awaiting_will).ok();
     }
 
     let (will_tx, will_rx) = flume::bounded::<AwaitingWill>(1);
@@ -564,6 +568,8 @@ async fn remote<P: Protocol>(
         Ok(l) => l,
         Err(e) => {
             error!(error=?e, "Remote link error");
+            // no session was created: nobody will ever wait on this handler
+            will_handlers.lock().unwrap().remove(&client_id);
             return;
         }
     };
